@@ -67,6 +67,7 @@ def one_case(rng, res):
         ch, desc = gen_case(rng, root)
         # B's file must carry A's signed name: link_spec "name" is what is signed
         scn = scen.build(ch, root, rng)
+        scn.params = vcommon.pick_params(rng, desc)
         i, m, _ = vcommon.run_case(scn, desc, res, True)
         res.count("how_" + desc["how"]); res.count("own_" + desc["own_evidence"])
         res.count("notice_%s" % desc["rules_notice"])
